@@ -48,10 +48,11 @@ const ENV_PROFILES: [&[(&str, &str)]; 4] = [
 /// own VERIF_* / VCHECK_* variables pass through), every OTHER variable answered as if it were set by the LD_PRELOAD
 /// monitor `harness/shim/envspy.c` (which also logs each distinct name consulted into `spy_log`, lets the wall clock
 /// jump a day per reading and reports a terminal on descriptors 0-2), and a standard error that cannot be written (a
-/// full device; a closed pipe behaves alike for `eprintln!`): diagnostics a library prints must not turn into a panic
+/// full device; a closed pipe behaves alike for `eprintln!`), and an allocator that returns blocks of alignment 1 at odd
+/// addresses and yields the processor at every 61st call (`hostile_alloc.rs`): diagnostics a library prints must not turn into a panic
 /// of the call that printed them, and nothing the crate produces may depend on any of this. Returns false when the
 /// monitor library is missing (the rest is still applied).
-pub fn hostile_environment(cmd: &mut Command, root: &std::path::Path, which: usize, answer: &str, spy_log: &std::path::Path) -> bool {
+pub fn hostile_environment(cmd: &mut Command, root: &std::path::Path, which: usize, answer: &str, spy_log: &std::path::Path, skew_allocations: bool) -> bool {
     cmd.env_clear();
     for (k, v) in std::env::vars_os() {
         let ks = k.to_string_lossy();
@@ -62,6 +63,8 @@ pub fn hostile_environment(cmd: &mut Command, root: &std::path::Path, which: usi
     for (k, v) in ENV_PROFILES[which % ENV_PROFILES.len()] {
         cmd.env(k, v);
     }
+    // the child's allocator hands out minimally aligned blocks and yields now and then (hostile_alloc.rs)
+    cmd.env("VCHECK_HOSTILE_ALLOC", if skew_allocations { "2" } else { "1" });
     let spy = root.join("harness/shim/envspy.so");
     let loaded = spy.is_file();
     if loaded {
@@ -113,7 +116,9 @@ fn environment_stage(ctx: &Ctx, prop: &str, rep: &mut Report) {
     const ANSWERS: [&str; 5] = ["1", "true", "yes", "trace", "2"];
     let answer = ANSWERS[(ctx.seed as usize / 7 + prop.len() + which) % ANSWERS.len()];
     let spy = ctx.root.join("harness/shim/envspy.so");
-    if !hostile_environment(&mut cmd, &ctx.root, which, answer, &spy_log) {
+    // (no skewed blocks where pixels are rasterised: see hostile_alloc.rs)
+    let rasterises = matches!(prop, "C13" | "C14" | "C17" | "C18" | "C19");
+    if !hostile_environment(&mut cmd, &ctx.root, which, answer, &spy_log, !rasterises) {
         rep.stats.inconclusive(format!("environment stage: {} is missing (run ./setup.sh)", spy.display()));
     }
     cmd.env("VCHECK_STAGE_CHILD", "environment").env("VERIF_THIN", "3").env("VERIF_SEED", format!("{}", (ctx.seed ^ 0xe57a6e) as i128)).env("VERIF_EVIDENCE_DIR", &evdir).stdin(Stdio::null());
